@@ -869,6 +869,44 @@ Proof.
   destruct b, c, d, e, f, h, i, j; vm_compute; split; reflexivity.
 Qed.
 
+(* ---- OpenFile(O_RDWR|O_APPEND|O_TRUNC) on /f = "abcd": its seek reads length 4; a Write of 8 bytes
+   through ANOTHER handle runs between the seek and the truncate; the new handle keeps offset 4 and
+   a one-byte Write through it lands there.  Had the other Write come first the offset would be 8,
+   had it come second its 8 bytes would survive.  This is the history recorded on the Go side by
+   the lock-aware cooperative scheduler (known finding, corpus/C04/openfile-append-trunc-write.case):
+   in the code both steps lie in ONE section of mu, which a handle operation does not take ---- *)
+Definition w_apptr : Z := Z.lor (Z.lor o_rdwr o_append) o_trunc.
+Definition w10_setup : list lop :=
+  [(Some 1%nat, OpenFile w_f (Z.lor o_rdwr o_create) 420); (None, HWrite 1 [97; 98; 99; 100]%N); (None, HClose 1);
+   (Some 20%nat, OpenFile w_f o_rdwr 0)].
+Definition w10_s0 : lstate := fst (lin_replay lin_step lin_init w10_setup).
+Definition w10_progs : list (list lop) :=
+  [[(Some 10%nat, OpenFile w_f w_apptr 412); (None, HWrite 10 [78]%N)];
+   [(None, HWrite 20 [87; 87; 87; 87; 87; 87; 87; 87]%N)]].
+(* OpenFile: invoke, locked section, seek; the other Write; truncate and return, then the Write
+   through the new handle (padded) *)
+Definition w10_sched : list nat := [0; 0; 0; 1; 1; 1; 0; 0; 0; 0; 0; 0; 0]%nat.
+
+(* the goroutine that runs between OpenFile's sections only uses a handle: it does not take mu *)
+Lemma w10_writer_handles_only : Forall (fun c : lop => op_handle_of (snd c) <> None) (nth 1 w10_progs []).
+Proof. repeat constructor; discriminate. Qed.
+
+Theorem refuted_openfile_append_trunc_write k : sc_open_split k = false -> sc_open_finish k = true -> refuted k w10_s0.
+Proof.
+  destruct k as [a b c d e f g h i j]; cbn [sc_open_split sc_open_finish]; intros -> ->. apply (refuted_by _ _ w10_progs w10_sched);
+    destruct b, c, d, e, f, h, i, j; vm_compute; reflexivity.
+Qed.
+
+Lemma refuted_openfile_append_trunc_write_results k : sc_open_split k = false -> sc_open_finish k = true ->
+  map (fun x => (lc_op x, lc_res x)) (lg_lin (ln_run k w10_s0 w10_progs w10_sched)) =
+    [((None, HWrite 20 [87; 87; 87; 87; 87; 87; 87; 87]%N), RCount 8 None);
+     ((Some 10%nat, OpenFile w_f w_apptr 412), RHandle 0); ((None, HWrite 10 [78]%N), RCount 1 None)] /\
+  map e_data (lin_obs (lg_st (ln_run k w10_s0 w10_progs w10_sched))) = [[]; [0; 0; 0; 0; 78]%N].
+Proof.
+  destruct k as [a b c d e f g h i j]; cbn [sc_open_split sc_open_finish]; intros -> ->.
+  destruct b, c, d, e, f, h, i, j; vm_compute; split; reflexivity.
+Qed.
+
 (* ================================================================ Rename and the directories' mutexes *)
 Definition w_e : str := [47; 101]%N.                 (* /e *)
 Definition w_ex : str := [47; 101; 47; 120]%N.       (* /e/x *)
